@@ -302,24 +302,61 @@ fn dict_history(rng: &mut Rng, kt: KT, vt: KT, nops: usize) -> Prog {
     let mut touched: BTreeSet<K> = BTreeSet::new();
     let n0 = rng.below(3);
     let mut pairs = Vec::new();
+    let mut src_items: Vec<(K, K)> = Vec::new();
     for _ in 0..n0 {
         let k = few_keys(kt, rng);
         let v = fresh(vt, &mut counter);
         model.insert(k.clone(), v.clone());
         touched.insert(k.clone());
         pairs.push(format!("({}, {})", k.lit(), v.lit()));
+        src_items.push((k.clone(), v.clone()));
     }
+    // the source list stays reachable and a sibling dict is built from the same list value: the three must
+    // be independent of each other afterwards (from_list copies, update affects only its own dict)
+    let model0 = model.clone();
     let decls = if pairs.is_empty() {
-        format!("d: dict.Dict({}, {}) = dict.new()\n", ty_name(kt), ty_name(vt))
+        format!("dsrc: [({}, {})] = []\nd: dict.Dict({}, {}) = dict.new()\nd2: dict.Dict({}, {}) = dict.new()\n", ty_name(kt), ty_name(vt), ty_name(kt), ty_name(vt), ty_name(kt), ty_name(vt))
     } else {
-        format!("d: dict.Dict({}, {}) = dict.from_list([{}])\n", ty_name(kt), ty_name(vt), pairs.join(", "))
+        format!(
+            "dsrc: [({}, {})] = [{}]\nd: dict.Dict({}, {}) = dict.from_list(dsrc)\nd2: dict.Dict({}, {}) = dict.from_list(dsrc)\n",
+            ty_name(kt),
+            ty_name(vt),
+            pairs.join(", "),
+            ty_name(kt),
+            ty_name(vt),
+            ty_name(kt),
+            ty_name(vt)
+        )
     };
+    let src_lit_show: String = format!("[{}]", src_items.iter().map(|(k, v)| format!("({}, {})", k.show(), v.show())).collect::<Vec<_>>().join(", "));
     let decls = format!("{}dcount: int = 0\n", decls);
     let mut p = Prog { decls, steps: Vec::new(), ops: Vec::new(), hazard: None };
     for _ in 0..nops {
         let k = few_keys(kt, rng);
         touched.insert(k.clone());
-        match rng.below(11) {
+        match rng.below(13) {
+            11 => {
+                // the source list and the sibling dict built from it are unaffected by what happened to `d`
+                let mut code = String::from("print(dsrc)\nprint(dict.len(d2))\n");
+                let mut exp = vec![src_lit_show.clone(), model0.len().to_string()];
+                for t in touched.iter().take(4) {
+                    code.push_str(&format!("print(dict.get(d2, {}))\n", t.lit()));
+                    exp.push(maybe_show(model0.get(t)));
+                }
+                p.step("observe-source-and-sibling", code.trim_end().to_string(), exp);
+            }
+            12 => {
+                // a value obtained before an update does not change with the update
+                let old = model.get(&k).cloned();
+                let v = fresh(vt, &mut counter);
+                model.insert(k.clone(), v.clone());
+                let id = p.steps.len();
+                p.step(
+                    "get-held-across-update",
+                    format!("dh{} :: dict.get(d, {})\ndict.update(d, {}, {})\nprint(dh{})\nprint(dict.get(d, {}))", id, k.lit(), k.lit(), v.lit(), id, k.lit()),
+                    vec![maybe_show(old.as_ref()), maybe_show(Some(&v))],
+                );
+            }
             8 => {
                 // dict.map with the identity / a constant value; observed order-free on the touched keys
                 let constant = rng.chance(1, 2);
